@@ -593,6 +593,83 @@ def run_psk_flow(case, pair, rec, out, cs, ss, ckw, skw):
     return out
 
 
+WRONG_KEY = {'RSA': 'serverRSANonCAKey.pem', 'ECDSA': 'serverECDSANonCAKey.pem', 'DSS': 'clientDSAKey.pem',
+             'TLS13': 'serverRSANonCAKey.pem'}
+
+
+def run_negauth_flow(case, pair, rec, out, cs, ss, ckw, skw, kind, m):
+    """The peer satisfies everything EXCEPT the one authentication the suite's name denotes; the handshake must not
+    complete on either side.
+      wrong-key      : the server holds the right certificate but another private key of the same type (its
+                       ServerKeyExchange / CertificateVerify signature, or its RSA decryption, is wrong)
+      empty-sig      : the server's ServerKeyExchange / CertificateVerify carries an empty signature
+      wrong-password : SRP client with another password
+      wrong-verifier : SRP server whose verifier belongs to another password
+      wrong-psk      : TLS 1.3 external PSK, same identity and hash, different secret on the server, no certificate
+      other-cert-type: the server holds a consistent certificate + key of ANOTHER key type than the name denotes
+                       (RSA <-> ECDSA, DSA -> RSA): the suite must not be negotiated with it"""
+    import loop
+    sid, variant = case['sid'], case['negauth']
+    out['cfg'] = 'negauth:' + variant
+    out['negauth'] = variant
+    if variant == 'wrong-key':
+        skw['privateKey'] = loop.load_key(WRONG_KEY[m['auth']])
+    elif variant == 'other-cert-type':
+        chain, key = loop.creds({'RSA': 'ecdsa', 'ECDSA': 'rsa', 'DSS': 'rsa'}[m['auth']])
+        skw.update(certChain=chain, privateKey=key)
+    elif variant == 'empty-sig':
+        def wrap(orig):
+            def send(msg, *a, **kw):
+                if type(msg).__name__ in ('ServerKeyExchange', 'CertificateVerify') and hasattr(msg, 'signature'):
+                    msg.signature = bytearray(0)
+                    out['sig_emptied'] = type(msg).__name__
+                return orig(msg, *a, **kw)
+            return send
+        pair.server._sendMsg = wrap(pair.server._sendMsg)
+        pair.server._queue_message = wrap(pair.server._queue_message)     # TLS 1.3 flights are queued
+    elif variant == 'wrong-password':
+        ckw['password'] = bytearray(b'not-the-password')
+    elif variant == 'wrong-verifier':
+        skw['verifierDB'] = loop.make_verifier_db(password=b'another-password')
+    elif variant == 'wrong-psk':
+        h = iana.prf_at(m, (3, 4))
+        ident, secret, _ = PSKS[h]
+        cs.pskConfigs = [(ident, secret, h)]
+        ss.pskConfigs = [(ident, bytes(b ^ 0x5a for b in secret), h)]
+        skw.pop('certChain', None)
+        skw.pop('privateKey', None)
+    ckw.pop('certChain', None)
+    ckw.pop('privateKey', None)
+    if variant == 'wrong-psk':
+        import tlslite.handshakehelpers as hhp
+        orig_ub = hhp.HandshakeHelpers.__dict__['update_binders']
+        f_ub = orig_ub.__func__ if isinstance(orig_ub, staticmethod) else orig_ub
+
+        def ub(client_hello, *a, **kw):
+            client_hello.cipher_suites = [x for x in client_hello.cipher_suites if x in (sid, 0x00FF)]
+            return f_ub(client_hello, *a, **kw)
+        hhp.HandshakeHelpers.update_binders = staticmethod(ub)
+        try:
+            c, s = pair.handshake(client_kw=ckw, server_kw=skw, client_kind=kind)
+        finally:
+            hhp.HandshakeHelpers.update_binders = orig_ub
+    else:
+        cut_offer(pair.client, [sid], out)
+        c, s = pair.handshake(client_kw=ckw, server_kw=skw, client_kind=kind)
+    out['outcome'] = [list(map(str, loop.classify(c))), list(map(str, loop.classify(s)))]
+    out['completed'] = [c[0] == 'ok', s[0] == 'ok']
+    try:
+        out['wire'] = wire_view(records(pair.csock.sent_log), records(pair.ssock.sent_log))
+    except Exception as e:  # noqa
+        out['wire'] = None
+    out['ok'] = bool(c[0] == 'ok' and s[0] == 'ok')
+    if c[0] == 'ok':
+        sess = pair.client.session
+        chain = getattr(sess, 'serverCertChain', None)
+        out['client_view'] = {'suite': int(sess.cipherSuite), 'srv_cert': str(chain.x509List[0].certAlg) if chain and chain.x509List else None}
+    return out
+
+
 def run_case(case):
     """case: dict(sid, ver=(3,x), cfg, seed).  Credentials and handshake kind come from the parsed name."""
     import loop
@@ -643,6 +720,8 @@ def run_case(case):
             ss.ticketKeys = [bytearray(range(32))]
             cch, ckey = loop.creds('client-rsa')     # a configured client certificate makes the client offer PHA
             ckw.update(certChain=cch, privateKey=ckey)
+        if case.get('negauth'):
+            return run_negauth_flow(case, pair, rec, out, cs, ss, ckw, skw, kind, m)
         if case.get('psks'):
             return run_psk_flow(case, pair, rec, out, cs, ss, ckw, skw)
         if case.get('resume'):
